@@ -5,7 +5,7 @@ P=$1; TIER=$2; shift 2
 cd /repo && [ -z "$(git status --porcelain)" ] || { echo "/repo not clean"; exit 2; }
 git apply $P || { echo "patch does not apply"; exit 2; }
 trap 'git -C /repo checkout -- . ; git -C /repo clean -fdq' EXIT
-cd /verif
+cd ${VERIF_HOME:-/verif}
 for id in "$@"; do
   out=$(bin/falcosim check $id --tier $TIER 2>&1)
   code=$?
